@@ -494,6 +494,13 @@ class BodyPartReader:
         else:
             line = await self._content.readline()
 
+        if not line and self._content.at_eof():
+            # The stream ended before the closing boundary of the part; like
+            # read_chunk(), refuse to be polled forever for data that cannot come.
+            self._content_eof += 1
+            if self._content_eof > 2:
+                raise ValueError("Reading after EOF")
+
         # A delimiter is CRLF "--" boundary (RFC 2046): a line that merely
         # follows a bare LF is content, as it is for read() and read_chunk().
         after_crlf = self._prev_line_crlf
